@@ -865,3 +865,46 @@ Definition oracle (fl : flavour) (st0 : store) (evs : list event) (out : list re
           chk (forallb (fun nb => dump_eqb (snd nb) (dump_box st (fst nb))) final) R_STORE
       end
   end.
+
+(** * Equality on observations (used by the in-kernel cross-check of sampled cases) *)
+
+Fixpoint nums_eqb (a b : list Z) : bool :=
+  match a, b with
+  | [], [] => true
+  | x :: a', y :: b' => (x =? y)%Z && nums_eqb a' b'
+  | _, _ => false
+  end.
+
+Definition body_eqb (a b : body) : bool :=
+  match a, b with
+  | BNone, BNone | BCapa, BCapa | BFail, BFail | BPanic, BPanic => true
+  | BList x, BList y => rowsN_eqb x y
+  | BUidl x, BUidl y => rowsS_eqb x y
+  | BWire x, BWire y => str_eqb x y
+  | BRaw x, BRaw y => str_eqb x y
+  | _, _ => false
+  end.
+
+Definition reply_eqb (a b : reply) : bool :=
+  Bool.eqb (r_ok a) (r_ok b) && nums_eqb (r_nums a) (r_nums b) &&
+  match r_id a, r_id b with
+  | None, None => true
+  | Some x, Some y => str_eqb x y
+  | _, _ => false
+  end && body_eqb (r_body a) (r_body b).
+
+Fixpoint replies_eqb (a b : list reply) : bool :=
+  match a, b with
+  | [], [] => true
+  | x :: a', y :: b' => reply_eqb x y && replies_eqb a' b'
+  | _, _ => false
+  end.
+
+(** One sampled case: the model, evaluated by the kernel, answers what the implementation
+    answered, leaves the store the implementation was left with, and the oracle accepts. *)
+Definition case_ok (c : flavour * store * list event * list reply * list (str * list (str * N))) : bool :=
+  let '(fl, st0, evs, out, final) := c in
+  let w := run fl (init_world st0) (evs ++ [EEof]) in
+  replies_eqb (w_out w) out &&
+  forallb (fun nb => dump_eqb (snd nb) (dump_box (w_store w) (fst nb))) final &&
+  match oracle fl st0 evs out final with None => true | Some _ => false end.
